@@ -2,6 +2,7 @@ import Driver.Pure
 import Driver.Recv
 import Driver.Prog
 import Driver.Cap
+import Driver.Arena
 
 open Driver
 
@@ -22,6 +23,7 @@ def main (args : List String) : IO UInt32 := do
   match args with
   | ["values"] => loop stdin stdout ({} : ValState) valuesStep; return 0
   | ["wire"] => loop stdin stdout ({} : ValState) wireStep; return 0
+  | ["arenaconc"] => loop stdin stdout ({} : ArenaState) arenaStep; return 0
   | ["capture"] => loop stdin stdout ({} : CapState) capStep; return 0
   | ["prog"] => loop stdin stdout ({} : ProgState) progStep; return 0
   | ["receiver"] => loop stdin stdout ({} : RecvState) recvStep; return 0
